@@ -117,8 +117,8 @@ def main():
             if p.timeout:
                 ctx.violation('hang:%s:%s' % (v, kind if kind.startswith('mut:') else kind + ':' + desc), '%s build did not terminate in 150 s on %s (%s)' % (v, kind, desc), files)
                 continue
-            if b'hard rss limit exhausted' in blob or b'AddressSanitizer: requested allocation size' in blob or b'allocator is out of memory' in blob:
-                nmem += 1; continue      # the sanitizer's own memory cap: no verdict from this build
+            if b'hard rss limit exhausted' in blob or b'AddressSanitizer: requested allocation size' in blob or b'allocator is out of memory' in blob or (p.sig == 9 and not p.timeout):
+                nmem += 1; continue      # the sanitizer's own memory cap, or SIGKILL from outside (memory pressure): no verdict from this build
             sig = san_signature(p)
             if sig:
                 if 'stack-overflow' in sig[0]: sig = (sig[0], kind + ':' + desc if kind == 'stress' else kind)      # the innermost frame of an exhausted stack is arbitrary: key by input
